@@ -44,13 +44,17 @@ class Interposer:
         self._saved = {}
         self.active = False
         self.fs_hook = None      # called for every successful mutating call (C03 call log)
+        # fault scope "query": only calls the library makes while it answers a query of the program are eligible
+        self.scope_query = False
+        self.in_query = False
 
     # -- the single choke point ------------------------------------------
     def call(self, name, fn, args, kwargs):
         if self.yield_hook is not None:
             self.yield_hook(name, args)
         mut = name in MUTATING or name in self.faultable
-        if self.active and name in self.faultable and not _in_commit_or_rollback():
+        if (self.active and name in self.faultable and (not self.scope_query or self.in_query)
+                and not _in_commit_or_rollback()):
             self.eligible += 1
             if self.fault_at is not None and self.eligible == self.fault_at and self.fault_fired is None:
                 self.fault_fired = (name, _short(args))
